@@ -71,6 +71,13 @@ func ReadMultipartForm(r io.Reader, boundary string, size, maxInMemoryFileSize i
 	if err != nil {
 		return nil, fmt.Errorf("cannot read multipart/form-data body: %s", err)
 	}
+	// The form may end before the declared size (an epilogue after the closing boundary, or a
+	// short form): the rest still belongs to this body. How much of it the multipart reader has
+	// already taken from r depends on how the bytes arrived, so consume it here.
+	if _, err = io.Copy(io.Discard, lr); err != nil {
+		f.RemoveAll() //nolint:errcheck
+		return nil, fmt.Errorf("cannot read multipart/form-data body: %s", err)
+	}
 	return f, nil
 }
 
